@@ -849,52 +849,66 @@ func ruleC08_3(c *Ctx, r *Rep) {
 		r.OK("C08.3", key, fn.Pos(), "names are always quoted")
 		return
 	}
-	// guard value
-	var guard ssa.Value
-	for _, cd := range edgeConds(ret.Block()) {
-		if cd.Pol {
-			guard = cd.V
+	// every path to the unquoted return establishes name != "": directly, or through a flag all of whose
+	// non-false sources are such a test
+	isNonEmptyTest := func(v ssa.Value, pol bool) bool {
+		bo, ok := v.(*ssa.BinOp)
+		if !ok {
+			return false
 		}
+		if s, isS := constString(bo.Y); isS && s == "" && resolve(bo.X) == ssa.Value(fn.Params[0]) {
+			return (bo.Op == token.NEQ && pol) || (bo.Op == token.EQL && !pol)
+		}
+		if z, isZ := constInt(bo.Y); isZ && z == 0 {
+			if call, isC := bo.X.(*ssa.Call); isC {
+				if bi, isB := call.Call.Value.(*ssa.Builtin); isB && bi.Name() == "len" && resolve(call.Call.Args[0]) == ssa.Value(fn.Params[0]) {
+					return ((bo.Op == token.GTR || bo.Op == token.NEQ) && pol) || (bo.Op == token.EQL && !pol)
+				}
+			}
+		}
+		return false
 	}
-	if guard == nil {
-		r.Fail("C08.3", key, ret.Pos(), "a name is returned unquoted without any identifier test")
-		return
-	}
-	// every non-false source of the guard implies name != ""
-	nonEmpty := true
-	sawInit := false
-	var chk func(v ssa.Value, d int)
-	seen := map[ssa.Value]bool{}
-	chk = func(v ssa.Value, d int) {
+	var flagOK func(v ssa.Value, d int, seen map[ssa.Value]bool) bool
+	flagOK = func(v ssa.Value, d int, seen map[ssa.Value]bool) bool {
 		if seen[v] || d > 10 {
-			return
+			return true
 		}
 		seen[v] = true
 		switch x := v.(type) {
 		case *ssa.Phi:
 			for _, e := range x.Edges {
-				chk(e, d+1)
+				if !flagOK(e, d+1, seen) {
+					return false
+				}
 			}
+			return true
 		case *ssa.Const:
-			if x.Value != nil && x.Value.String() == "true" {
-				nonEmpty = false
-			}
+			return x.Value != nil && x.Value.String() == "false"
 		case *ssa.BinOp:
-			s, isS := constString(x.Y)
-			if x.Op == token.NEQ && isS && s == "" && resolve(x.X) == ssa.Value(fn.Params[0]) {
-				sawInit = true
-				return
+			return isNonEmptyTest(x, true)
+		}
+		return false
+	}
+	nonEmpty, sawInit := true, false
+	npaths := pathsTo(fn, ret.Block(), func(cs []Cond) {
+		ok := false
+		for _, cd := range cs {
+			if isNonEmptyTest(cd.V, cd.Pol) {
+				ok = true
 			}
-			if z, isZ := constInt(x.Y); isZ && z == 0 && (x.Op == token.GTR || x.Op == token.NEQ) && sources(x.X)["param:"+fn.Params[0].Name()] {
-				sawInit = true
-				return
+			if _, isPhi := cd.V.(*ssa.Phi); isPhi && cd.Pol && flagOK(cd.V, 0, map[ssa.Value]bool{}) {
+				ok = true
 			}
-			nonEmpty = false
-		default:
+		}
+		if ok {
+			sawInit = true
+		} else {
 			nonEmpty = false
 		}
+	})
+	if npaths == 0 {
+		nonEmpty = false
 	}
-	chk(guard, 0)
 	// the rune loop: every rune must be '_' / letter / digit-not-first, otherwise the flag is cleared
 	ls := loopsOf(fn)
 	okLoop, okDigit, sawDigit := len(ls) == 1, true, false
